@@ -299,7 +299,118 @@ func nilEventMethods(c *Ctx) []string {
 	return names
 }
 
+// inertShapes: statements built on the event an entry point returned.  sends: the statement ends in a
+// finalizer (so an admitted event is written and a Panic() event fires); skipPlain: shapes that add nothing
+// for a filtered non-firing entry (those return nil; the nil-event reflection covers every method).
+type inertShape struct {
+	name      string
+	sends     bool // an admitted event reaches a finalizer
+	skipPlain bool
+	run       func(e *zerolog.Event, st *recState)
+}
+
+var inertShapes = []inertShape{
+	{".Func.Object.EmbedObject.Interface.MsgFunc", true, false, func(e *zerolog.Event, st *recState) {
+		e.Func(func(e *zerolog.Event) { st.calls = append(st.calls, "Func callback") }).
+			Object("o", recObj{st}).EmbedObject(recObj{st}).Interface("i", recObj{st}).
+			MsgFunc(func() string { st.calls = append(st.calls, "MsgFunc callback"); return "m" })
+	}},
+	{".Array.Any.Fields(map).Fields(slice).Msg", true, false, func(e *zerolog.Event, st *recState) {
+		e.Array("a", recArr{st}).Any("y", recObj{st}).Fields(map[string]interface{}{"f": recObj{st}}).
+			Fields([]interface{}{"g", recArr{st}}).Msg("m")
+	}},
+	{".Msg", true, true, func(e *zerolog.Event, st *recState) { e.Msg("m") }},
+	{".Send", true, true, func(e *zerolog.Event, st *recState) { e.Send() }},
+	{".Msgf", true, true, func(e *zerolog.Event, st *recState) { e.Msgf("%d", 1) }},
+	{".MsgFunc", true, true, func(e *zerolog.Event, st *recState) {
+		e.MsgFunc(func() string { st.calls = append(st.calls, "MsgFunc callback"); return "m" })
+	}},
+	{" [if e.Enabled() { e.Object.Msg }]", true, true, func(e *zerolog.Event, st *recState) {
+		if e.Enabled() {
+			e.Object("o", recObj{st}).Msg("m")
+		}
+	}},
+	{" [result dropped]", false, true, func(e *zerolog.Event, st *recState) {}},
+}
+
+// liveFilteredMethods: mk returns a non-nil event although the call is filtered out.  Every reflected
+// method is applied to a fresh such event with recording arguments; whatever the method, nothing may be
+// invoked and nothing written (a panic is not judged here: the Panic() statement is judged in the grid).
+func liveFilteredMethods(c *Ctx, mk func() *zerolog.Event, w *lvlWriter, cs map[string]interface{}) {
+	t := tEvt
+	for i := 0; i < t.NumMethod(); i++ {
+		m := t.Method(i)
+		for variant := 0; variant < 2; variant++ {
+			st := &recState{}
+			var e *zerolog.Event
+			func() {
+				defer func() { recover() }()
+				e = mk()
+			}()
+			if e == nil {
+				return
+			}
+			mt := m.Type
+			args := []reflect.Value{reflect.ValueOf(e)}
+			n := mt.NumIn()
+			for j := 1; j < n; j++ {
+				pt := mt.In(j)
+				if mt.IsVariadic() && j == n-1 {
+					if variant == 1 {
+						args = append(args, synth(pt.Elem(), st))
+					}
+					continue
+				}
+				args = append(args, synth(pt, st))
+			}
+			before := len(w.levels)
+			func() {
+				defer func() { recover() }()
+				m.Func.Call(args)
+			}()
+			c.Count("livecall "+m.Name+fmt.Sprint(variant), true)
+			if len(st.calls) > 0 || len(w.levels) > before {
+				cc := map[string]interface{}{"method": m.Name, "variadic_args": variant}
+				for k, v := range cs {
+					cc[k] = v
+				}
+				c.Violate(Violation{Key: "filtered-event-not-inert", Monitor: "live-filtered-reflection", Desc: fmt.Sprintf("%v returned a live event although filtered; %s on it invoked %v, writes %d", cs["entry"], m.Name, st.calls, len(w.levels)-before), Case: cc, Observed: st.calls, Expected: []string{}})
+			}
+		}
+	}
+}
+
+type printObj struct{}
+
+func (printObj) MarshalZerologObject(e *zerolog.Event) { fmt.Println("invoked MarshalZerologObject") }
+
+type printArr struct{}
+
+func (printArr) MarshalZerologArray(a *zerolog.Array) { fmt.Println("invoked MarshalZerologArray") }
+
+type printWriter struct{}
+
+func (printWriter) Write(p []byte) (int, error) { fmt.Println("written"); return len(p), nil }
+
 func child(mode string) {
+	if strings.HasPrefix(mode, "fatal-obs-") {
+		l := zerolog.New(printWriter{}).Hook(zerolog.HookFunc(func(e *zerolog.Event, lv zerolog.Level, m string) { fmt.Println("invoked hook") }))
+		switch mode {
+		case "fatal-obs-level":
+			l = l.Level(zerolog.Disabled)
+		case "fatal-obs-global":
+			zerolog.SetGlobalLevel(zerolog.Disabled)
+		case "fatal-obs-sampler":
+			l = l.Sample(&zerolog.BasicSampler{N: 0})
+		case "fatal-obs-nop":
+			l = zerolog.Nop()
+		}
+		l.Fatal().Object("o", printObj{}).Array("a", printArr{}).Interface("i", printObj{}).
+			Fields(map[string]interface{}{"f": printObj{}}).
+			MsgFunc(func() string { fmt.Println("invoked MsgFunc callback"); return "m" })
+		fmt.Println("survived")
+		os.Exit(0)
+	}
 	w := &lvlWriter{}
 	l := zerolog.New(w).Level(zerolog.Disabled)
 	switch mode {
@@ -480,10 +591,13 @@ func runC04(c *Ctx) {
 	}
 
 	// (d2) a filtered-out event is inert also beyond the writer: no hook, no Func / MsgFunc callback, no
-	// object marshaler is invoked, whichever way the event was filtered (logger level, global level, a
-	// sampler that rejects, WithLevel(Disabled)) and whichever entry point created it
+	// object / array marshaler is invoked, whichever way the event was filtered (logger level, global level, a
+	// sampler that rejects, WithLevel(Disabled)), whichever entry point created it (Panic() included, under
+	// recover) and whichever argument shapes and finalizer the statement uses; a filtered Panic() statement
+	// still panics, every other entry never does.  Should a filtered entry hand out a live (non-nil) event,
+	// every reflected Event method is tried on it with recording arguments.
 	{
-		runs, filtered := 0, 0
+		runs, filtered, live := 0, 0, 0
 		for _, ll := range []int{-128, 0, 2, 5, 7} {
 			for _, gl := range []int{-128, 1, 4, 7} {
 				for _, reject := range []bool{false, true} {
@@ -497,35 +611,70 @@ func runC04(c *Ctx) {
 						l = l.Sample(&zerolog.BasicSampler{N: 0})
 					}
 					type ent struct {
-						name string
-						lvl  int
-						mk   func() *zerolog.Event
+						name  string
+						lvl   int
+						mk    func() *zerolog.Event
+						fires bool // Panic(): the statement panics, written or filtered
 					}
-					ents := []ent{{"Trace", -1, l.Trace}, {"Debug", 0, l.Debug}, {"Info", 1, l.Info}, {"Warn", 2, l.Warn}, {"Error", 3, l.Error}, {"Log", 6, l.Log}}
+					ents := []ent{{"Trace", -1, l.Trace, false}, {"Debug", 0, l.Debug, false}, {"Info", 1, l.Info, false}, {"Warn", 2, l.Warn, false}, {"Error", 3, l.Error, false}, {"Log", 6, l.Log, false}, {"Panic", 5, l.Panic, true}}
 					for lv := -128; lv <= 7; lv++ {
 						lv := lv
-						ents = append(ents, ent{fmt.Sprintf("WithLevel(%d)", lv), lv, func() *zerolog.Event { return l.WithLevel(zerolog.Level(lv)) }})
+						ents = append(ents, ent{fmt.Sprintf("WithLevel(%d)", lv), lv, func() *zerolog.Event { return l.WithLevel(zerolog.Level(lv)) }, false})
 					}
 					for _, en := range ents {
-						st.calls = nil
-						before := len(w.levels)
-						e := en.mk()
-						e.Func(func(e *zerolog.Event) { st.calls = append(st.calls, "Func callback") }).
-							Object("o", recObj{st}).EmbedObject(recObj{st}).Interface("i", recObj{st}).
-							MsgFunc(func() string { st.calls = append(st.calls, "MsgFunc callback"); return "m" })
-						written := len(w.levels) > before
 						want := en.lvl >= ll && en.lvl >= gl && en.lvl != 7 && !reject
-						runs++
-						if written != want {
-							c.Violate(Violation{Key: "gate-wrong", Monitor: "inert-grid", Desc: fmt.Sprintf("logger level %d, global %d, rejecting sampler %v, %s: written=%v, want %v", ll, gl, reject, en.name, written, want),
-								Case: map[string]interface{}{"logger_level": ll, "global_level": gl, "rejecting_sampler": reject, "entry": en.name}})
-						}
-						if !want {
-							filtered++
-							if len(st.calls) != 0 {
-								c.Violate(Violation{Key: "filtered-event-not-inert", Monitor: "inert-grid", Desc: fmt.Sprintf("logger level %d, global %d, rejecting sampler %v: the filtered event from %s invoked %v (event nil: %v)", ll, gl, reject, en.name, st.calls, e == nil),
-									Case: map[string]interface{}{"logger_level": ll, "global_level": gl, "rejecting_sampler": reject, "entry": en.name}, Observed: st.calls, Expected: []string{}})
+						wasLive := false
+						for _, sh := range inertShapes {
+							if !en.fires && !want && sh.skipPlain {
+								continue
 							}
+							st.calls = nil
+							before := len(w.levels)
+							var e *zerolog.Event
+							panicked := func() (p bool) {
+								defer func() {
+									if r := recover(); r != nil {
+										p = true
+									}
+								}()
+								e = en.mk()
+								sh.run(e, st)
+								return false
+							}()
+							written := len(w.levels) > before
+							runs++
+							cs := map[string]interface{}{"logger_level": ll, "global_level": gl, "rejecting_sampler": reject, "entry": en.name, "statement": sh.name}
+							if written != (want && sh.sends) {
+								c.Violate(Violation{Key: "gate-wrong", Monitor: "inert-grid", Desc: fmt.Sprintf("logger level %d, global %d, rejecting sampler %v, %s%s: written=%v, want %v", ll, gl, reject, en.name, sh.name, written, want && sh.sends), Case: cs})
+							}
+							if !en.fires && panicked {
+								c.Violate(Violation{Key: "panic-callback-wrong", Monitor: "inert-grid", Desc: fmt.Sprintf("logger level %d, global %d, rejecting sampler %v: %s%s panicked (only Panic() may)", ll, gl, reject, en.name, sh.name), Case: cs})
+							}
+							guarded := strings.HasPrefix(sh.name, " [")
+							if en.fires && sh.sends && !guarded && !panicked {
+								c.Violate(Violation{Key: "panic-callback-wrong", Monitor: "inert-grid", Desc: fmt.Sprintf("logger level %d, global %d, rejecting sampler %v: %s%s did not panic (filtered: %v)", ll, gl, reject, en.name, sh.name, !want), Case: cs})
+							}
+							if en.fires && want && panicked != sh.sends {
+								c.Violate(Violation{Key: "panic-callback-wrong", Monitor: "inert-grid", Desc: fmt.Sprintf("logger level %d, global %d: admitted %s%s: panicked=%v, want %v", ll, gl, en.name, sh.name, panicked, sh.sends), Case: cs})
+							}
+							if !want {
+								filtered++
+								if e != nil {
+									wasLive = true
+								}
+								if len(st.calls) != 0 {
+									c.Violate(Violation{Key: "filtered-event-not-inert", Monitor: "inert-grid", Desc: fmt.Sprintf("logger level %d, global %d, rejecting sampler %v: the filtered event from %s, used as %s%s, invoked %v (event nil: %v)", ll, gl, reject, en.name, en.name, sh.name, st.calls, e == nil),
+										Case: cs, Observed: st.calls, Expected: []string{}})
+								}
+								if en.fires && guarded && !panicked {
+									// "Panic() still panics ... when filtered": the call itself, whatever is done with its result
+									c.Violate(Violation{Key: "filtered-panic-deferred", Monitor: "inert-grid", Desc: fmt.Sprintf("logger level %d, global %d, rejecting sampler %v: filtered %s%s (event never sent) did not panic", ll, gl, reject, en.name, sh.name), Case: cs})
+								}
+							}
+						}
+						if wasLive {
+							live++
+							liveFilteredMethods(c, en.mk, w, map[string]interface{}{"logger_level": ll, "global_level": gl, "rejecting_sampler": reject, "entry": en.name})
 						}
 					}
 				}
@@ -535,6 +684,20 @@ func runC04(c *Ctx) {
 		c.Res.Evaluations += runs
 		c.Res.ExtraCoverage["inert_grid_calls"] = runs
 		c.Res.ExtraCoverage["inert_grid_filtered"] = filtered
+		c.Res.ExtraCoverage["inert_grid_live_filtered_events"] = live
+	}
+
+	// (d3) filtered Fatal() with observers among its arguments, in a child per way of filtering: exit status 1,
+	// nothing written, no observer invoked before the exit
+	for _, mode := range []string{"fatal-obs-level", "fatal-obs-global", "fatal-obs-sampler", "fatal-obs-nop"} {
+		code, out := runChild(mode)
+		if code != 1 || strings.Contains(out, "survived") {
+			c.Violate(Violation{Key: "fatal-filtered-no-exit", Monitor: "fatal-child", Desc: fmt.Sprintf("filtered Fatal() statement with marshaler arguments (%s) did not exit(1): code=%d out=%q", mode, code, out), Case: mode})
+		}
+		if strings.Contains(out, "invoked") || strings.Contains(out, "written") {
+			c.Violate(Violation{Key: "filtered-event-not-inert", Monitor: "fatal-child", Desc: fmt.Sprintf("filtered Fatal() statement (%s) invoked observers or wrote before exiting: out=%q", mode, out), Case: mode + ": l.Fatal().Object(o).Array(a).Interface(i).Fields(map).MsgFunc(f)", Observed: out, Expected: ""})
+		}
+		c.Res.Evaluations++
 	}
 
 	// (e) level text
